@@ -219,11 +219,49 @@ def t17_ord(run, fx):
         run.fail(rule, "indic-order", "preprocess_indic: %s" % msg, "%s:%s" % (b.file, b.line))
 
 
+def t17_fast(run, fx):
+    rule = "T17-FAST"
+    run.rule(rule, "modified_combining_class answers NotReordered without consulting the combining class table only below U+0300, the first "
+                   "code point with a non-zero canonical combining class (UnicodeData: U+0300 COMBINING GRAVE ACCENT, ccc 230): the function's "
+                   "only branch is c <= U+02FF (or c < U+0300); every other code point goes through get_canonical_combining_class")
+    b = fx.body("unicode::mcc::modified_combining_class")
+    if b is None:
+        return run.anchor_missing(rule, "unicode::mcc::modified_combining_class")
+    import guards
+    prov = sym.Prov(b)
+    conds = guards.branch_conditions(b, prov)
+    calls = guards.bool_call_conditions(b, prov)
+    ok = len(conds) == 1 and not calls
+    why = ""
+    if ok:
+        tb, fb_, op, x, y, sw = conds[0]
+        ys = sym.strip(y)
+        k = ys[1] if ys[0] == "c" else None
+        if isinstance(k, str) and len(k) == 1:
+            k = ord(k)
+        if k is None and ys[0] == "c" and len(ys) > 3:
+            import re
+            m = re.search(r"u\{([0-9a-fA-F]+)\}", str(ys[3]))
+            k = int(m.group(1), 16) if m else None
+        ok = (op == "Le" and k is not None and k <= 0x2FF) or (op == "Lt" and k is not None and k <= 0x300)
+        why = "%s %s" % (op, hex(k) if isinstance(k, int) else k)
+    else:
+        why = "%d comparison(s) and %d predicate call(s) decide the fast path" % (len(conds), len(calls))
+    uses_table = any((t["callee"].get("path") or "").endswith("get_canonical_combining_class") for _, t in b.calls())
+    if ok and uses_table:
+        run.ok(rule, "fast path: c %s; everything else through the combining class table" % why)
+    else:
+        run.fail(rule, "mcc-fast-path", "modified_combining_class: the NotReordered fast path is not limited to code points below U+0300 (%s): combining "
+                 "marks inside the widened range are no longer sorted and split the runs they sit in" % why, "%s:%s" % (b.file, b.line))
+
+
 def check(run, fx, tier, floors=True):
     if floors or fx.body("scripts::arabic::is_modifier_combining_mark") is not None:
         t17_mcm(run, fx)
     if floors or fx.body("scripts::indic::preprocess_indic") is not None:
         t17_ord(run, fx)
+    if floors or fx.body("unicode::mcc::modified_combining_class") is not None:
+        t17_fast(run, fx)
     r = t17_disp(run, fx)
     rule = "T17-EFF"
     run.rule(rule, "every use of the character buffer's mutable capability reachable from preprocess_text is a stable permutation primitive or a "
